@@ -96,6 +96,44 @@ def shard_orders(arg):
     return sh
 
 
+SWEEP_ORDER = 1 << 1100
+
+
+def by_content_length(L):
+    """integers whose DER content is exactly L octets: without and with the
+    sign-padding octet"""
+    out = [(1 << (8 * L - 1)) - 1]
+    if L >= 2:
+        out.append(0x80 << (8 * (L - 2)))
+    return out
+
+
+def shard_length_sweep(arg):
+    """every pair of DER content lengths (lr, ls) in [1, 136]^2, with and
+    without sign padding: the SEQUENCE body takes every length 6..276, across
+    the short/long-form boundary at 127/128 and the 1/2-octet boundary at
+    255/256, in every split between the two INTEGERs"""
+    lrs, top = arg
+    from ecdsa import util, der
+    sh = Shard()
+    n = SWEEP_ORDER
+    for lr in lrs:
+        for r in by_content_length(lr):
+            for ls in range(1, top + 1):
+                for s in by_content_length(ls):
+                    sh.n += 1
+                    sh.nt += 1
+                    bad = roundtrip_case(util, n, r, s)
+                    if bad:
+                        sh.hist["fail:" + bad[0]] += 1
+                        sh.violation("roundtrip", bad[0], dict(n=n, r=r, s=s),
+                                     bad[1], bad[2])
+                    else:
+                        sh.hist["length-sweep"] += 1
+    sh.sample(dict(n="2^1100", content_lengths=[lrs[0], "1..%d" % top]), cap=1)
+    return sh
+
+
 def outcome(fn, util, der):
     try:
         return ("ok", fn())
@@ -347,8 +385,24 @@ def main(ctx):
         vals = boundary_vals(n)[:: ctx.pick(3, 1)]
         pairs = [(r, s) for r in vals for s in vals]
         jobs.append((shard_der_mutants, "der-decoder-mutants", (n, pairs)))
+    top = 136
+    for ch in common.chunks(list(range(1, top + 1)), ctx.jobs):
+        jobs.append((shard_length_sweep, "der-length-sweep", (ch, top)))
+    # decoder side: mutants of signatures whose body straddles 127/128, 255/256
+    n = SWEEP_ORDER
+    lens = [1, 2, 61, 62, 63, 64, 125, 126, 127, 128] if ctx.quick else \
+        list(range(1, 137, 3)) + [61, 62, 126, 128]
+    for ch in common.chunks(lens, 4):
+        pairs = [(r, s) for lr in ch for r in by_content_length(lr)[:1]
+                 for ls in (1, 62, 124 - lr if 1 <= 124 - lr else 3,
+                            252 - lr if 252 - lr <= 136 else 127)
+                 for s in by_content_length(max(1, ls))[-1:]]
+        jobs.append((shard_der_mutants, "der-decoder-mutants-long", (n, pairs)))
     rep = common.run_shards(ctx, jobs)
     rep.rule = (
+        "every pair of DER content lengths (lr, ls) in [1,136]^2 with/without "
+        "sign padding for a 1100-bit order (SEQUENCE bodies of every length "
+        "6..276: both length-form boundaries in every split); "
         "orders n in [2,%d] (all (r,s) in [0,n-1]^2 for n <= 48, boundary "
         "values squared above) + 17 curve orders + 2^k+{-1,0,1}: three "
         "encoders produce the reference bytes and decode back; integer/byte "
